@@ -668,7 +668,7 @@ fn minimise(c: &Case, f: Found, tag: &str) -> (Case, Found) {
 
 pub fn run_shard(ctx: &ShardCtx, rep: &mut Report) {
     let total: u64 = match ctx.tier {
-        Tier::Quick => ctx.scaled(1600) as u64,
+        Tier::Quick => ctx.scaled(5000) as u64,
         Tier::Thorough => ctx.scaled(320_000) as u64,
     };
     if !Path::new(CLI).exists() || !Path::new(SHIM).exists() {
